@@ -490,10 +490,21 @@ def run(tier):
         bf = c.pf.bf(bl[0])
         cmds = [(bb, t) for bb, t in bf.calls() if (callee_name(t) or '').startswith(L)]
         nor = [s for b in bf.body.blocks if not b.cleanup for s in b.stmts if s.k == 'assign' and s.rv.k == 'agg' and s.rv.d.get('variant') == 'NoRxParams']
-        okg = bool(cmds) and bool(nor)
+        okg = bool(cmds)
         for bb, t in cmds:
             conds = path_conditions(bf, bb)
-            okg = okg and any(x[0][0] == 'discr' and 'rx_pkt_params' in term_str(x[0]) and x[1] in ((1,), ('not', (0,))) for x in conds)
+
+            def params_present(x):
+                # `if let Some(p) = &self.rx_pkt_params`, or `self.rx_pkt_params.as_ref().ok_or(NoRxParams)?` (Continue edge of the `?`)
+                ts_ = term_str(x[0])
+                if x[0][0] != 'discr' or 'rx_pkt_params' not in ts_:
+                    return False
+                if 'branch(' in ts_:
+                    return 'ok_or' in ts_ and 'NoRxParams' in ts_ and x[1] in ((0,), ('not', (1,)))
+                return x[1] in ((1,), ('not', (0,)))
+            okg = okg and any(params_present(x) for x in conds)
+            nor = nor or [x for x in conds if 'NoRxParams' in term_str(x[0])]
+        okg = okg and bool(nor)
         res.require(okg, 'C14:adapter:%s:needs-setup_rx' % m, '%s drives the radio without the parameters stored by setup_rx' % m, bf.body.path, 'DOM(rx parameters present => receive)',
                     instance='adapter %s: refused with NoRxParams unless setup_rx stored the parameters' % m)
     bl = prog.by_short.get(AD + 'low_power::{closure#0}') or []
